@@ -15,7 +15,8 @@ LAYOUTS = [
 ]
 
 CONTENTS = [b"", b"hello", b"world", b"hello", b"x" * 100, b"\x00\x01\xfe\xff binary \n\r", b"same", b"same", "ünï".encode(), b"0123456789" * 50]
-EXT_FILES = ["a.txt", "b.txt", "c.dat", "d1/x.txt", "d1/y.txt", "d1/sub/z.txt", "d2/x.txt", "d2/deep/er/w.bin", "e"]
+# `a.tmp` / `a` / `a.txt~`: names that collide with one another under the usual ways of deriving a temporary name
+EXT_FILES = ["a.txt", "b.txt", "c.dat", "d1/x.txt", "d1/y.txt", "d1/sub/z.txt", "d2/x.txt", "d2/deep/er/w.bin", "e", "a.tmp", "a", "d1/x.tmp", "a.txt~"]
 NAMES = ["a.txt", "b.txt", "n.txt", "d1", "d1/x.txt", "d1/sub", "d2", "new/dir/f", "e", "z"]
 H_FILES = ['q"uote.txt', 'back\\slash.txt', 'new\nline', 'tab\there.txt', 'sp ace ', ' lead', 'ünï/日本/🙂.bin', '%25pct%', 'x' * 180,
            'ctl\x01\x1f', 'd"q/in"ner/f\\g', "it's", 'a.txt']
@@ -348,7 +349,7 @@ class Gen:
             self.diverge(oid)
             return
         r0 = rng.random()
-        if self.observe_history and r0 < 0.10:
+        if r0 < (0.10 if self.observe_history else 0.05):
             self.evolve(oid)
             return
         if 0.10 <= r0 < 0.17:
